@@ -378,6 +378,11 @@ func (vc *VC) enterLoop(li *loopInfo, b *ssa.BasicBlock, es []*edge, pc string, 
 		vc.assume(pc, sx(">=", na, st.alloc))
 		hst.alloc = na
 	}
+	for h := range heaps {
+		if hv, ok := hst.heap[h]; ok && hv != st.heap[h] {
+			vc.heapAlloc[hv] = hst.alloc
+		}
+	}
 	for _, phi := range phis {
 		vc.havocVal(phi, hst, pc)
 	}
